@@ -101,7 +101,7 @@ def render(records, rng, style):
 
 class P(Prop):
     id = "C09"
-    quick_cases = 1600
+    quick_cases = 4000
     thorough_cases = 50000
     chunk = 100
     rule = (
@@ -376,9 +376,19 @@ class P(Prop):
             and all(eff_mode(p["enzyme"], p["digestion"]) != "none" for p in case["params"])
         )
 
+    @staticmethod
+    def _model_lines(f):
+        """the lines Python's text-mode iteration yields for the file written from `f` (a trailing empty element of
+        `lines` without a final newline is no line of the file)"""
+        text = "\n".join(f["lines"]) + ("\n" if f["final_newline"] and f["lines"] else "")
+        parts = text.split("\n")
+        if parts and parts[-1] == "":
+            parts.pop()
+        return parts
+
     # ------------------------------------------------------------------ model
     def model_request(self, case, impl_out):
-        files = [f["lines"] for f in case["files"]]
+        files = [self._model_lines(f) for f in case["files"]]
         reqs = []
         if case["kind"] == "direct":
             reqs.append({"op": "fasta", "lines": files[0], "db": case["db"], "special": case["special"], "parse_id": case["parse_id"]})
